@@ -579,8 +579,16 @@ func c19ManyKeys(r *rand.Rand) *c19Node {
 	return a
 }
 
-func c19GenCase(r *rand.Rand, i int) (*c19Node, string) {
-	switch k := r.Intn(100); {
+// thin: the thorough tier draws many more values; the classes whose cost is dominated by the size of one
+// value (sized, manykeys, deep, large: 15 % of the quick stream and 95 % of its time, mostly the byte-list
+// model on 64 KiB values) are kept at about 1.5x their quick number, the rest of the budget goes to
+// primitives and trees.
+func c19GenCase(r *rand.Rand, i int, thin bool) (*c19Node, string) {
+	k := r.Intn(100)
+	if thin && k >= 30 && k < 45 && r.Intn(20) >= 3 {
+		k = 45 + r.Intn(55)
+	}
+	switch {
 	case k < 30:
 		return c19RandPrim(r, true), "primitive"
 	case k < 34:
@@ -1169,7 +1177,7 @@ const c19Rule = "codec: random variant value trees (21 primitive kinds with boun
 func RunC19Codec(ctx *core.Ctx) {
 	ctx.SetRule(c19Rule)
 	nw := 8
-	total := ctx.Scale(20000, 400000)
+	total := ctx.Scale(20000, 200000)
 	var wg sync.WaitGroup
 	var mu sync.Mutex
 	var malformed []c19Malformed
@@ -1217,7 +1225,7 @@ func RunC19Codec(ctx *core.Ctx) {
 			var local []c19Malformed
 			pendingBytes := 0
 			for i := 0; i < total/nw; i++ {
-				n, class := c19GenCase(r, i)
+				n, class := c19GenCase(r, i, ctx.Thorough())
 				if w == 0 && i < 3 {
 					ctx.Sample(map[string]any{"value": c19Trunc(n.String()), "class": class})
 				}
